@@ -199,9 +199,11 @@ func newBuilt(c *mon.Ctx, r *gen.Rand) *built {
 	// the starting point is stated through the API rather than assumed (defaults are the library's choice)
 	b.x.SetCommandInfo(scte35.CreateSpliceNull())
 	b.x.SetTier(0xfff)
-	b.x.SetDescriptors(nil)
+	if len(b.x.Descriptors()) != 0 || r.Bool() {
+		b.x.SetDescriptors(nil) // (a created signal that reports no descriptors may also keep the list it came with)
+	}
 	b.x.SetAdjustPTS(0)
-	b.log("SetCommandInfo(CreateSpliceNull()); SetTier(0xfff); SetDescriptors(nil); SetAdjustPTS(0)")
+	b.log("SetCommandInfo(CreateSpliceNull()); SetTier(0xfff); SetDescriptors(nil) unless there are none; SetAdjustPTS(0)")
 	if b.x.Tier() != 0xfff || b.x.Command() != scte35.SpliceNull || len(b.x.Descriptors()) != 0 {
 		b.fail("create:starting-point", "after SetCommandInfo(splice_null), SetTier(0xFFF), SetDescriptors(nil) the getters report something else", nil, nil)
 	}
@@ -498,8 +500,19 @@ func (b *built) setDescriptors(n int) {
 		}
 		b.m.Descs = append(b.m.Descs, w)
 	}
-	b.log("SetDescriptors(%d fresh descriptors)", n)
-	b.x.SetDescriptors(b.descs)
+	if cur := b.x.Descriptors(); len(cur) == 0 && n > 0 && b.r.Chance(3) {
+		// the list is grown from the (empty) list the getter returned, the way callers add descriptors one by one
+		lst := cur
+		for _, d := range b.descs {
+			lst = append(lst, d)
+		}
+		b.log("SetDescriptors(append(Descriptors(), %d fresh descriptors...))", n)
+		b.x.SetDescriptors(lst)
+		b.c.Count("descriptors.appended_to_the_list_the_getter_returned")
+	} else {
+		b.log("SetDescriptors(%d fresh descriptors)", n)
+		b.x.SetDescriptors(b.descs)
+	}
 	if len(b.x.Descriptors()) != n {
 		b.fail("getter:descriptors", "Descriptors() does not report the list set", nil, nil)
 		return
@@ -576,13 +589,27 @@ func (b *built) descOp() {
 	case 1:
 		v := segTypes[r.Intn(len(segTypes))]
 		b.log(p+"SetTypeID(%#x)", v)
+		wasPO := m.Type == 0x34 || m.Type == 0x36
 		d.SetTypeID(scte35.SegDescType(v))
 		m.Type = v
-		if v != 0x34 && v != 0x36 {
+		switch isPO := v == 0x34 || v == 0x36; {
+		case !isPO:
+			// a type without sub-segment fields: the encoding has none; what the flag getter says meanwhile, and
+			// whether the flag is still there when the type becomes a placement-opportunity start again, is the
+			// library's choice (the flag is read back then)
 			m.HasSub = false
-		}
-		if byte(d.TypeID()) != v || d.HasSubSegments() != m.HasSub {
-			bad("type-id")
+			if byte(d.TypeID()) != v {
+				bad("type-id")
+			}
+		case !wasPO:
+			m.HasSub = d.HasSubSegments()
+			if byte(d.TypeID()) != v {
+				bad("type-id")
+			}
+		default:
+			if byte(d.TypeID()) != v || d.HasSubSegments() != m.HasSub {
+				bad("type-id")
+			}
 		}
 	case 2:
 		f := r.Chance(4)
@@ -949,6 +976,12 @@ func (b *built) checkpoint(viaString bool) {
 	}
 }
 
+// the signal the previous history built, and the section it last encoded to
+var (
+	prevSig  scte35.SCTE35
+	prevWant []byte
+)
+
 func history(c *mon.Ctx, r *gen.Rand) {
 	b := newBuilt(c, r)
 	n := 5 + r.Intn(36)
@@ -977,6 +1010,19 @@ func history(c *mon.Ctx, r *gen.Rand) {
 		}
 	}
 	b.checkpoint(false)
+	// the signal built by the previous history has not been touched since its last encoding: it still encodes to
+	// the same section, whatever was created, filled and encoded in between
+	if prevSig != nil {
+		c.Count("earlier_signal_encoded_again")
+		if re := prevSig.UpdateData(); !bytes.Equal(re, prevWant) {
+			c.Fail("encode:earlier-signal-changed-by-another-signal", fmt.Sprintf("a signal built through the API encoded to one section; after another signal was created, filled and encoded, the untouched first signal encodes differently (first difference at byte %d of %d / %d)", ref.FirstDiff(re, prevWant), len(re), len(prevWant)),
+				wit{Shape: s35.Shape(&b.m), History: b.hist, Got: mon.Hex(re), Want: mon.Hex(prevWant), Detail: "the history shown is the one of the signal built in between"})
+		}
+		prevSig = nil
+	}
+	if !b.dead && b.looked {
+		prevSig, prevWant = b.x, append([]byte{}, b.last...)
+	}
 	if !b.dead && len(b.kinds) >= 2 {
 		cls := "history/" + s35.CmdShape(&b.m) + "/"
 		for _, k := range s35.SortedKeys(toInt(b.kinds)) {
